@@ -939,7 +939,11 @@ impl Scenario for Aggregation {
             match failure {
                 Some(detsim::Failure::Aborted { .. }) | None => {
                     if run.is_none() {
-                        r.harness_error = Some(format!("scenario produced no result (main panic: {main_panic:?})"));
+                        match main_panic.as_deref().map(crate::driver::classify_uncaught_panic) {
+                            Some(Ok(v)) => r.violation = Some(v),
+                            Some(Err(e)) => r.harness_error = Some(e),
+                            None => r.harness_error = Some("scenario produced no result".into()),
+                        }
                     }
                 }
                 Some(f @ detsim::Failure::Deadlock { .. }) => r.violation = Some(Violation::new("deadlock", format!("{f:?}"))),
